@@ -167,7 +167,8 @@ def build_smp(tp, torch, s):
             return tp.samplers.ExponentialIntervalSampler(dom, n, 2.0)
         raise ValueError(kind)
     if k == "data":
-        return tp.samplers.DataSampler({s["v"]: torch.arange(s["m"], dtype=torch.float32).reshape(-1, 1) + 0.5})
+        dt = torch.float64 if s.get("dt") == "float64" else torch.float32
+        return tp.samplers.DataSampler({s["v"]: torch.tensor([[datum_value(s, j)] for j in range(s["m"])], dtype=dt).reshape(-1, 1)})
     if k == "*":
         return build_smp(tp, torch, s["a"]) * build_smp(tp, torch, s["b"])
     if k == "+":
@@ -180,13 +181,21 @@ def build_smp(tp, torch, s):
     raise ValueError(k)
 
 
+def datum_value(s, j):
+    """stored datum j of a data leaf; float64 data are no float32 numbers"""
+    return 0.5 + j + (2.0 ** -30 if s.get("dt") == "float64" else 0.0)
+
+
 def build_params(tp, torch, case):
     if case["k"] == 0:
         return tp.spaces.Points.empty()
     sp = None
     for v in case["pvars"]:
         sp = tp.spaces.R1(v) if sp is None else sp * tp.spaces.R1(v)
-    return tp.spaces.Points(torch.tensor(case["pvals"], dtype=torch.float32), sp)
+    # float64 batches hold values that are no float32 numbers (i + 0.1): "carried unchanged" is then only possible
+    # when the result keeps the precision
+    dt = torch.float64 if case.get("pdtype") == "float64" else torch.float32
+    return tp.spaces.Points(torch.tensor(case["pvals"], dtype=dt), sp)
 
 
 # ------------------------------------------------------------------------------------------
@@ -365,7 +374,8 @@ def decode(case, out_vars, dims, tensor, params_rows):
                     j = vals[v][0] - 0.5
                     jj = round(j)
                     if abs(j - jj) < 1e-3 and 0 <= jj < lf["m"]:
-                        txt = f"{v}:D{lf['id']}#{jj}"
+                        # stored data are handed out unchanged, bit for bit
+                        txt = f"{v}:D{lf['id']}#{jj}" + ("" if vals[v][0] == datum_value(lf, jj) else ":changed")
                         break
                     continue
                 own, moves, rel = cell_verdict(node, vals[v], pre_env(node, env))
@@ -509,11 +519,17 @@ def run_impl(case):
         out_vars = list(p.space.keys())
         dims = [p.space[v] for v in out_vars]
         res["calls"].append((out_vars, dims, t.tolist()))
+        res.setdefault("dtypes", []).append(str(t.dtype))
     res["vars"], res["dims"], res["rows_raw"] = res["calls"][0]
     res["same_as_previous"] = [None] + [
         bool(a.as_tensor.shape == b.as_tensor.shape and (a.as_tensor == b.as_tensor).all())
         for a, b in zip(pts_all, pts_all[1:])]
     return res
+
+
+def wants_float64(case):
+    return (case["k"] > 0 and case.get("pdtype") == "float64") or any(
+        lf["k"] == "data" and lf.get("dt") == "float64" for lf in leaves_of(case["s"]))
 
 
 def oracles(case, res):
@@ -537,6 +553,10 @@ def oracles(case, res):
         if vars_ != exp_vars:
             fails.append(f"{tag}space of the result is {vars_}, expected {exp_vars}")
             continue
+        if wants_float64(case) and res["dtypes"][cno - 1] != "torch.float64":
+            fails.append(f"{tag}the result has dtype {res['dtypes'][cno - 1]} although float64 parameter rows / data went in: "
+                         "their values cannot be carried unchanged")
+            continue
         dec = decode(case, vars_, dims, raw, prows)
         for r, (row, w) in enumerate(zip(dec, want)):
             cells = row.split(" ")
@@ -550,6 +570,10 @@ def oracles(case, res):
                                  + (f" (rows {i}*{per_param}..)" if i is not None else ""))
                     break
                 cells = cells[:-1]
+            chg = [c for c in cells if c.endswith(":changed")]
+            if chg:
+                fails.append(f"{tag}row {r}: stored datum {chg[0]} of the data sampler was changed")
+                break
             bad = [c for c in cells if "other" in c or c.endswith(":?")]
             if bad:
                 fails.append(f"{tag}row {r}: point {bad[0]} was not made for the parameter/partner row it is paired with")
@@ -793,11 +817,16 @@ def gen_case(rng, idx):
         return None
     for d in all_doms(s):
         fix_bool_ids(d)
-    pvals = []
+    pvals, pdtype = [], "float32"
     if k:
+        pdtype = rng.choice(["float32", "float32", "float64"])
+        frac = 0.1 if pdtype == "float64" else 0.0
         cols = [rng.sample(range(1, 9), k) for _ in pvars]
-        pvals = [[float(c[i]) for c in cols] for i in range(k)]
-    return dict(kind="sample", k=k, pvars=pvars, pvals=pvals, s=s, tseed=rng.randint(0, 10 ** 6))
+        pvals = [[float(c[i]) + frac for c in cols] for i in range(k)]
+    for lf in leaves_of(s):
+        if lf["k"] == "data" and rng.random() < 0.35:
+            lf["dt"] = "float64"
+    return dict(kind="sample", k=k, pvars=pvars, pvals=pvals, pdtype=pdtype, s=s, tseed=rng.randint(0, 10 ** 6))
 
 
 def total_rows(case):
@@ -903,16 +932,20 @@ def describe(case):
         if s["k"] == "leaf":
             return f"{s['kind']}{'f' if s['filt'] else ''}({ds(s['d'])},{s['n']})"
         if s["k"] == "data":
-            return f"data({s['v']},{s['m']})"
+            return f"data{'64' if s.get('dt') == 'float64' else ''}({s['v']},{s['m']})"
         if s["k"] == "T":
             return f"static{s.get('r') or ''}({ss(s['s'])})"
         return f"({ss(s['a'])} {s['k']} {ss(s['b'])})"
-    return f"k={case['k']} params={case['pvars']} {ss(case['s'])}"
+    return f"k={case['k']} params={case['pvars']}{'(float64)' if case.get('pdtype') == 'float64' and case['k'] else ''} {ss(case['s'])}"
 
 
 def histogram(rep, case):
     s = case["s"]
     rep.count(f"k={case['k']}")
+    if case["k"]:
+        rep.count("parameter dtype " + case.get("pdtype", "float32"))
+    if any(lf["k"] == "data" and lf.get("dt") == "float64" for lf in leaves_of(s)):
+        rep.count("float64 data sampler")
 
     def walk(x, depth):
         rep.count("node:" + (x["k"] if x["k"] != "leaf" else "leaf-" + x["kind"] + ("+filter" if x["filt"] else "")))
